@@ -397,6 +397,9 @@ pub fn run(ctx: &Ctx) -> Value {
             for cut in 1..f.len() { if f.is_char_boundary(cut) { tok.push(f[..cut].to_string()); tok.push(format!("{}Q", &f[..cut])); tok.push(format!("{}é ", &f[..cut])); } }
         }
     }
+    // POSIX E and O modifiers (not supported: errors), stacked flags
+    for m in ["E", "O"] { for c in ["c", "C", "x", "X", "y", "Y", "d", "e", "H", "I", "m", "M", "S", "u", "U", "V", "w", "W", "z", "%"] { tok.push(format!("%{}{}", m, c)); tok.push(format!("%-{}{}", m, c)); } }
+    for fl in ["-0", "0-", "--", "00", "_-", "-_", "#-", "-#", "__"] { for c in ["d", "Y", "H", "j", "z", "f"] { tok.push(format!("%{}{}", fl, c)); } }
     tok.sort(); tok.dedup();
     for f in tok.iter() { tw.emit(items_event(f)); n += 1; }
     bump("tokenisation_lattice_events", n);
@@ -445,6 +448,22 @@ pub fn run(ctx: &Ctx) -> Value {
     }
     for f in ["%+", "%c"] { for d in memo_sequence() { tw.emit(fmt_event(&Val::Z(dts(&[d.and_time(ts[0])], &[0])[0]), f)); n += 1; } }
     bump("witness_and_sequence_events", n);
+    // 8c. digit groups of the fraction through every fraction specifier and %+
+    n = 0;
+    for (i, f) in fraction_groups().into_iter().enumerate() {
+        let z = dts(&[ds[i % ds.len()].and_time(mk_time_any(45_296 + (i as u32 % 60), f))], &[OFFSETS[i % OFFSETS.len()]]);
+        if z.is_empty() { continue; }
+        for fm in ["%.f", "%+", "%f|%.3f|%.6f|%.9f|%3f|%6f|%9f"] { tw.emit(fmt_event(&Val::Z(z[0]), fm)); n += 1; }
+    }
+    // offsets whose seconds round the minutes up, and the minutes the hours (x:59:30 and above): 0:59, 9:59 (one digit -> two), 22:59, 23:59
+    for h in [0i32, 1, 9, 10, 22, 23] { for s in [29i32, 30, 31, 59] { for sign in [1, -1] {
+        let o = sign * (h * 3600 + 59 * 60 + s);
+        if o.abs() >= 86_400 { continue; }
+        let z = dts(&[ds[(h as usize * 7 + s as usize) % ds.len()].and_time(ts[0])], &[o]);
+        if z.is_empty() { continue; }
+        for fm in ["%z", "%:z", "%::z", "%:::z", "%+", "%#z"] { tw.emit(fmt_event(&Val::Z(z[0]), fm)); n += 1; }
+    } } }
+    bump("fraction_group_and_offset_carry_events", n);
     // 9. DelayedFormat built from its parts: every presence pattern of (date, time, offset)
     n = 0;
     let part_formats = ["%Y-%m-%d", "%H:%M:%S%.f", "%z", "%:z %Z", "%s", "%c", "%+", "%F %T %z", "%a %j %U", "%I %p", "%e|%k|%::z", "%%", "x"];
